@@ -1125,7 +1125,7 @@ func (ctx *RenderContext) EvaluateExpression(node Node) (interface{}, error) {
 			return 0, nil
 		case "-":
 			if num, ok := ctx.toNumber(operand); ok {
-				return -num, nil
+				return 0 - num, nil // not -num: the negation of zero is zero, not IEEE -0
 			}
 			return 0, nil
 		default:
@@ -1517,7 +1517,7 @@ func (ctx *RenderContext) evaluateBinaryOp(operator string, left, right interfac
 	case "*":
 		if lNum, lok := ctx.toNumber(left); lok {
 			if rNum, rok := ctx.toNumber(right); rok {
-				return lNum * rNum, nil
+				return lNum*rNum + 0, nil // +0: a zero product is 0 whatever the signs (IEEE -0 prints as "-0")
 			}
 		}
 
@@ -1527,7 +1527,7 @@ func (ctx *RenderContext) evaluateBinaryOp(operator string, left, right interfac
 				if rNum == 0 {
 					return nil, errors.New("division by zero")
 				}
-				return lNum / rNum, nil
+				return lNum/rNum + 0, nil
 			}
 		}
 
@@ -1538,7 +1538,7 @@ func (ctx *RenderContext) evaluateBinaryOp(operator string, left, right interfac
 				if rNum == 0 {
 					return nil, errors.New("modulo by zero")
 				}
-				return math.Mod(lNum, rNum), nil
+				return math.Mod(lNum, rNum) + 0, nil
 			}
 		}
 
